@@ -41,7 +41,9 @@ Definition fop_of (k : kop) : fop :=
 Inductive base :=
 | BFile (c : cls) (evs : list event) (s : sel) (filt : option (list kop)) (pt : Z) (sg : Q)
 | BPobj (evs : list event) (s : sel) (filt : option (list kop)).
-Inductive hop := HF (k : kop) | HAdd (j : nat) | HAddSelf.
+(* HInject: the harness overwrites num_output_per_event_ / num_events_ on the real object (states outside the
+   invariant, to validate the model's error branches) *)
+Inductive hop := HF (k : kop) | HAdd (j : nat) | HAddSelf | HInject (c : carr) (n : Z).
 
 (* particle_list() as Python shows it: [] is both the flat and the nested empty list *)
 Inductive plx := XFlat (l : list pid) | XNested (l : list (list pid)) | XEmpty.
@@ -86,6 +88,7 @@ Definition do_hop (env : list (result storer)) (s : storer) (o : hop) : result s
   | HF k => step s (F (fop_of k))
   | HAdd j => match nth_error env j with Some (Ok b) => step s (ADD b) | _ => Err OtherError end
   | HAddSelf => step s (ADD s)
+  | HInject c n => Ok (set_nevents (set_counts s c) n)
   end.
 
 Fixpoint check_hist (env : list (result storer)) (r : result storer) (h : list (hop * obs))
